@@ -13,10 +13,11 @@ def QRecA (Q : List Ev → Prop) (rec : Rec) (a : AMode) : Prop := ∀ j m env s
     `raise` events, given that the traces of the sub-rule calls it can make do: calls with its own
     apply mode, calls with actions disabled (`at`, `not_at`, `disable`), and — only for `enable` —
     calls with actions enabled. -/
-theorem body_rawA {Q : List Ev → Prop} (hQ : RawClosed Q) {rec : Rec} (cx : Ctx) (k : Nat) (kind : Kind) (a : AMode)
+theorem body_rawA {Q : List Ev → Prop} (hQ : RawClosedE (fun _ => Q)) {rec : Rec} (cx : Ctx) (k : Nat) (kind : Kind) (a : AMode)
     (hrec : QRecA Q rec a) (hoff : QRecA Q rec .nothing)
-    (hon : (∃ c, kind = .enable c) → QRecA Q rec .action) (m : RMode) (env : Env) (st : St) (r : Ret)
+    (hon : (∃ c, kind = .enable c) → QRecA Q rec .action) (m : RMode) (env : Env)
+    (hract : a = .action → ∀ (acts : List RuleAct) (b e : Cursor), Q (runActs cx env.sd b e acts).2) (st : St) (r : Ret)
     (h : body cx rec k kind a m env st = some r) : Q r.raw :=
-  body_rawE hQ.toE cx k kind a hrec hoff hon m env st r h
+  body_rawE hQ cx k kind a hrec hoff hon m env hract st r h
 
 end Pegtl
